@@ -41,9 +41,9 @@ type Tape struct {
 	Diverged error
 	// per-stream replay: shrinking keeps streams independent so that deleting a schedule
 	// decision does not shift workload decisions
-	perStream bool
-	sreplay   [3][]Decision
-	spos      [3]int
+	perStream  bool
+	sreplay    [3][]Decision
+	spos       [3]int
 	KeepLabels bool
 }
 
